@@ -221,9 +221,11 @@ def normalized(name, data):
     return y / np.maximum(n, tiny_of(y))
 
 
-def components(name, model, data):
+def components(name, model, data, opts=None):
     """(log_pdf, weight) with shape (..., K, N) each: what Bayes' rule is applied to by `predict`:
-    the component distribution's own log_pdf and the stored weights broadcast along the tied axes."""
+    the component distribution's own log_pdf and the stored weights broadcast along the tied axes.
+    opts: the configuration the trainer was called with; when given, the stream exponents of the integration models
+    are taken from it (what the caller asked for), not from the attributes of the returned model."""
     from pb_bss.utils import unsqueeze
     if name == 'cacgmm':
         lp = _cacg_log_pdf(model.cacg, normalized(name, data))
@@ -254,7 +256,9 @@ def components(name, model, data):
         sl = comp.log_pdf(emb.reshape(1, F * Tn, E))              # (K, F*T)
         Kc = sl.shape[0]
         sl = np.transpose(sl.reshape(Kc, F, Tn), (1, 0, 2))
-        lp = model.spatial_weight * sp + model.spectral_weight * sl
+        a_sp = (opts or {}).get('spatial_weight', model.spatial_weight if opts is None else 1.0)
+        a_sl = (opts or {}).get('spectral_weight', model.spectral_weight if opts is None else 1.0)
+        lp = a_sp * sp + a_sl * sl
         w = unsqueeze(model.weight, model.weight_constant_axis)
     w = np.broadcast_to(w, np.broadcast_shapes(np.shape(w), lp.shape))
     return np.asarray(lp), np.asarray(w)
